@@ -117,8 +117,20 @@ def check(run: Run) -> None:
         ("J4", "planar flux integrand (A . n_hat) |dr/dt| = A_x y' - A_y x'"),
         ("J5", "planar divergence integrand = div F |r_u x r_v|"),
         ("J6", "volume integrand = div F * h1 h2 h3, integrated over z, y, x each with its own limits"),
+        ("J7", "no assumption-forcing simplification (posify, force=True) on the way to an integrand"),
     ]:
         run.rule(rid, text)
+    for mn in MODS[1:]:
+        mm = run.src.need(mn)
+        run.ob("J7", mn)
+        for c in ast.walk(mm.tree):
+            if isinstance(c, ast.Call):
+                d = (dotted(c.func) or (c.func.attr if isinstance(c.func, ast.Attribute) else "")).split(".")[-1]
+                forced = any(k.arg == "force" and isinstance(k.value, ast.Constant) and k.value.value is True for k in c.keywords)
+                if d == "posify" or forced or (d == "refine" and len(c.args) > 1):
+                    run.violate("J7", f"{mn}:{d}:{norm(c, 50)}", mm, c,
+                                f"`{norm(c, 60)}` rewrites an integrand factor under the assumption that its symbols are positive: |dr/dt| = sqrt(16 t^2) becomes 4t instead of "
+                                f"4|t|, so fluxes over parameter ranges with negative values change sign")
     body = []
     for mn in MODS:
         m = run.src.need(mn)
